@@ -541,6 +541,9 @@ class DriverLubaRs232(DriverSerialBase):
                                 f"of message '{tx}', but got a confirmation "
                                 f"for '{confirm.message}'"
                             )
+                            # It belongs to some earlier command: keep
+                            # waiting for our own confirmation
+                            continue
                     else:
                         _LOG.warning(
                             f"Unable to decode message id {confirm.tx_id}, but "
